@@ -453,11 +453,12 @@ func build(tier string) []explore.Scenario {
 func main() {
 	_ = strings.Join
 	explore.Main(explore.Config{
-		Property:  "C13",
-		Level:     "fault_enumeration",
-		Technique: "exhaustive enumeration of transport fault plans (position x mode x repetitions x re-establishment failures x writes during the outage) on the real client adapter and server over an in-process transport, virtual clock, exact quiescence; plus stateless exploration of schedules for selected plans",
-		Rule:      "7 watch flavours (incl. label- and ID-selector watches) x fault positions 0..5 x {before message, message lost} x repeat 0..2 x failed re-establishments 0..2 x outage writes 0..2, plus retries disabled, server restarted, history moved on; non-trivial = distinct plans",
-		Assume:    []string{"transport failures are modelled at the Recv/Watch-call seam the client code sees (Unavailable)", "a restarted server is modelled by replacing the backend with a fresh, shorter log (the bookmark cookie is process-global)"},
-		Extra:     map[string]any{"explanation": "states = fault plans executed; transitions = scheduler steps"},
+		Property:     "C13",
+		RequireShims: true,
+		Level:        "fault_enumeration",
+		Technique:    "exhaustive enumeration of transport fault plans (position x mode x repetitions x re-establishment failures x writes during the outage) on the real client adapter and server over an in-process transport, virtual clock, exact quiescence; plus stateless exploration of schedules for selected plans",
+		Rule:         "7 watch flavours (incl. label- and ID-selector watches) x fault positions 0..5 x {before message, message lost} x repeat 0..2 x failed re-establishments 0..2 x outage writes 0..2, plus retries disabled, server restarted, history moved on; non-trivial = distinct plans",
+		Assume:       []string{"transport failures are modelled at the Recv/Watch-call seam the client code sees (Unavailable)", "a restarted server is modelled by replacing the backend with a fresh, shorter log (the bookmark cookie is process-global)"},
+		Extra:        map[string]any{"explanation": "states = fault plans executed; transitions = scheduler steps"},
 	}, build)
 }
